@@ -77,6 +77,8 @@ FAMILIES = {
                    Outs=["OK"], MaxConn=2, MaxCalls=4, StalePick=1, Pre=4),
     "deep-refresh": fam(CfgMin=1, CfgMax=2, CfgWm=1, CfgUc=1, CfgUms=2, Keys=[1], AVs=[1, 2], States=["READY", "TF", "SHUTDOWN"], Methods=["PLAIN"],
                         Outs=["OK", "CDE"], Dls=[0, 1], Advs=[3], MaxConn=4, MaxCalls=3, StalePick=0, Pre=6),
+    "deep-ref2": fam(CfgMin=1, CfgMax=1, CfgWm=9, CfgUc=2, CfgUms=2, Keys=[1], AVs=[], States=["READY"], Methods=["PLAIN"], Outs=["OK", "CDE"],
+                     Dls=[1, 3], Advs=[3], CfgKinds=[], MaxConn=2, MaxCalls=4, StalePick=0, Pre=1),
     "deep-rr": fam(CfgMin=3, CfgMax=3, CfgWm=100, CfgRr=True, Keys=[1], AVs=[1], States=["READY", "TF"], Methods=["BIND", "PLAIN"], Outs=["OK"],
                    Dls=[0, 2], Advs=[3], MaxConn=3, MaxCalls=6, StalePick=0, Pre=5),
     # everything on (simulation only)
@@ -93,7 +95,7 @@ PROP_FAMILIES = {
     "C04": ["states", "refresh", "deep-refresh", "faults", "spanner"],
     "C05": ["faults", "faultsfb", "refreshfail", "deep-refbound", "spanner"],
     "C06": ["faultsfb", "faults", "rr", "refreshfail", "deep-rr", "spanner"],
-    "C07": ["refresh2", "deep-refresh", "refresh", "refreshfail", "deep-affref", "rrrefresh", "spanner"],
+    "C07": ["deep-ref2", "deep-refresh", "refresh2", "refresh", "refreshfail", "deep-affref", "rrrefresh", "spanner"],
     "C08": ["deep-fb", "fallback", "fallbackrefresh", "faultsfb", "spanner"],
     "C09": ["deep-rr", "rr", "rrrefresh", "spanner"],
     "C17": ["config0", "config1"],
